@@ -32,7 +32,21 @@ def c05(tier):
                                    assumptions=BASE_ASSUME, level="model_checking")
 
 
-TABLE = {"C04": c04, "C05": c05, "C06": c06}
+def c03(tier):
+    if tier == "quick":
+        return reader.run_reader_check("C03", tier, [("MC_C03.tla", "MC_C03_quick.cfg")], mult=1, max_progs=3000,
+                                       assumptions=BASE_ASSUME)
+    return reader.run_reader_check("C03", tier, [("MC_C03.tla", "MC_C03_thorough.cfg")], mult=2, assumptions=BASE_ASSUME)
+
+
+def c08(tier):
+    if tier == "quick":
+        return reader.run_reader_check("C08", tier, [("MC_C08.tla", "MC_C08_quick.cfg")], mult=1, max_progs=4000,
+                                       assumptions=BASE_ASSUME)
+    return reader.run_reader_check("C08", tier, [("MC_C08.tla", "MC_C08_thorough.cfg")], mult=1, assumptions=BASE_ASSUME)
+
+
+TABLE = {"C03": c03, "C04": c04, "C05": c05, "C06": c06, "C08": c08}
 
 # per-property overrides for MANIFEST fields (category, text, note, technique, design_ref)
 INFO = {}
